@@ -3,5 +3,6 @@ CONSTANTS
   Tier = "quick"
   Scenarios = {}
 INVARIANTS TypeOK CanonDenotesValue CanonFixedPoint CanonIsCanonical AltIsCanonical
-           WriterStatusSound PresentationDenotesValue CanonUnique CanonicalIffFixed Emit
+           WriterStatusSound PresentationDenotesValue CanonUnique CanonicalIffFixed
+           KindsDoNotCross QuotedIsNoNumber Emit
 CHECK_DEADLOCK FALSE
